@@ -969,6 +969,12 @@ def exec_history(hist, workdir, collect=None, light=False):
                   sc_m = np.abs(R["K"]).sum(1).max() * np.abs(am).max() + np.abs(R["y"]).max()
                   if np.abs(res_m).max() > 1e-9 * sc_m:
                       V("fit:alpha_mol:normal-equations", "step %d: residual %.3g scale %.3g" % (step, np.abs(res_m).max(), sc_m))
+              # a fit that returned must have left weights on every kernel
+              missing = [ik for ik, kern in enumerate(gp.kernels) if getattr(kern, "alpha", None) is None or np.asarray(kern.alpha).dtype.kind not in "fiu" or np.asarray(kern.alpha).shape != R["alphas"][ik].shape]
+              if missing:
+                  V("fit:kernel_alpha:missing", "step %d: kernels %s have no weights (or weights of another length) after a completed fit" % (step, missing))
+                  last_fit = None
+                  continue
               for ik, kern in enumerate(gp.kernels):
                   a = np.asarray(kern.alpha)
                   # backward error of (Kmm + eps I) alpha = Kmn alpha_mol  (x0^2 folded in)
